@@ -420,6 +420,22 @@ let run_file (inp : in_channel) (out : out_channel) =
                        (oid g) (fstr f) (oid l) (oid e) (oid r) (ov lv) (ov ev) (ov rv) (fstr rg)
                    | _, _, _, _, _ -> "PANIC") in
               Printf.fprintf out "q %s G %s\n" q ans)
+         | "MI" :: w :: q :: _ ->
+           (* C14: GetI<N> (N = 8w) recomputed from the message fields: GetIntMsg.mgeti *)
+           (match !last_m with
+            | None -> failwith "MI without message"
+            | Some m ->
+              let key = bytes_of_hex q in
+              let wi = int_of_string w in
+              let ans =
+                match init_vars m with
+                | Panic -> if int_of_n (node_count m) = 0 then "0 0000000000000000" else "PANIC"
+                | Val vs ->
+                  let fuel = nat_of_int (int_of_n (node_count m) + 2) in
+                  (match mgeti (nat_of_int wi) fuel m vs key with
+                   | Ok (z, f) -> Printf.sprintf "%d %s" (if f then 1 else 0) (hex_of_bytes (z_be8 z))
+                   | Err _ -> "PANIC") in
+              Printf.fprintf out "i %s W%d %s\n" q wi ans)
          | "MS" :: rest -> run_ms out !last_m rest
          | "MT" :: _ -> run_mt out !last_m
          | "F" :: id :: rest ->
